@@ -10,4 +10,4 @@ CONSTANTS
   KindsUsed <- KindsMulti
   LayoutsUsed <- LayoutsSmall
   OpsUsed <- OpsC02
-  TailOps <- TailNone
+  TailOps <- TailC01
